@@ -71,7 +71,7 @@ def screened(F, func, at_node, arg, accept, depth=0):
     return None
 
 
-def sto_rule(F, rep, rid, exempt, only=None):
+def sto_rule(F, rep, rid, exempt, only=None, require_screen=False):
     n_sites = 0
     for f in sorted(F.funcs.values(), key=lambda f: (f.file, f.line)):
         if only is not None and not only(f):
@@ -91,8 +91,15 @@ def sto_rule(F, rep, rid, exempt, only=None):
                 continue
             hs = handlers_of(f, n)
             both = any(h in COVERS_BOTH for h in hs) or ('std::invalid_argument' in hs and 'std::out_of_range' in hs)
-            if both:
+            if both and not require_screen:
                 rep.ok(rid, key, f.where(n), 'handlers %s cover invalid_argument and out_of_range' % hs)
+                continue
+            if both and require_screen:
+                accept = {r for r, k in RECOGNISERS.items() if k == kind}
+                how = screened(F, f, n, arg, accept)
+                rep.check(how is not None, rid, key, f.where(n),
+                          '%s is applied to text that was not accepted by a CellML %s recogniser: std::sto* also converts text with leading blanks or trailing characters ("0.5", "0x10", " 7"), so non-grammatical text is silently accepted' % (render(n), 'integer' if kind == 'int' else 'real'),
+                          'screened: ' + str(how))
                 continue
             oor = 'std::out_of_range' in hs
             accept = {r for r, k in RECOGNISERS.items() if k == kind or (kind == 'real' and k == 'real')}
